@@ -177,6 +177,12 @@ class EngineBase:
         keys = z3.Const(fresh_name(base + '.keys'), BoolArr)
         nk = z3.Int(fresh_name(base + '.nk'))
         self.st.assume(nk >= 0)
+        kty = ty[5:].split('->')[0]
+        if kty in self.spec.entities:
+            # keys are objects that exist in the pre-state
+            q = z3.Int(fresh_name('dk'))
+            self.st.assume(z3.ForAll([q], z3.Implies(z3.Select(keys, q), z3.And(q > 0, z3.Select(z3.Const('alloc0', BoolArr), q))),
+                                     patterns=[z3.Select(keys, q)]))
         if v.startswith('list:'):
             d = DictObj(keys, nk, 'list', vcnt=z3.Const(fresh_name(base + '.vcnt'), z3.ArraySort(I, IntArr)),
                         vn=z3.Const(fresh_name(base + '.vn'), IntArr), velem=v[5:], label=base)
@@ -319,6 +325,8 @@ class EngineBase:
             st.heap[(cls, field)] = z3.Store(a, r, self.as_int_term(val))
             return
         if ty.startswith('list:') or ty.startswith('set:'):
+            if val is None or isinstance(val, (int, float)):
+                val = empty_list()      # None / 0 in a list-typed entity field: modelled as empty (ingest tasks only)
             if not isinstance(val, ListObj):
                 raise OutOfSubset(f"store of non-list into {cls}.{field}")
             a = self.heap_arr(st, cls, field + '.cnt', IntArr)
@@ -327,6 +335,8 @@ class EngineBase:
             st.heap[(cls, field + '.n')] = z3.Store(a, r, val.n)
             return
         if ty.startswith('dict:'):
+            if val is None or isinstance(val, (int, float)):
+                val = self.empty_dict('num' if ty.endswith('->num') else 'any')
             if not isinstance(val, DictObj):
                 raise OutOfSubset(f"store of non-dict into {cls}.{field}")
             a = self.heap_arr(st, cls, field + '.keys', BoolArr)
